@@ -215,7 +215,13 @@ def try_to_save_module(hashed_grammar, file_io, module, lines, pickling=True, ca
                 Warning
             )
         else:
-            _remove_cache_and_update_lock(cache_path=cache_path)
+            try:
+                _remove_cache_and_update_lock(cache_path=cache_path)
+            except OSError:
+                # The clean-up is not important enough to let parsing fail,
+                # e.g. if another process removes the cache directory while
+                # it is being scanned.
+                pass
 
 
 def _save_to_file_system(hashed_grammar, path, item, cache_path=None):
